@@ -669,6 +669,26 @@ func TestC13(t *testing.T) {
 		}},
 		// callbacks whose function type PRINTS like the target's, with a function-local type that shadows the name of the
 		// package-level one and has another size
+		// a mocker object the user kept, whose own mock was lifted again: the refusal of an ill-formed callback puts
+		// nothing back
+		{"callback-signature", "kept Func(F1) mocker: Apply, Cancel, then Apply(two parameters)", func(b *mocker.Builder) {
+			m := b.Func(F1)
+			m.Apply(func(a int) int { return 9 })
+			m.Cancel()
+			m.Apply(func(a, c int) int { return 0 })
+		}},
+		{"callback-signature", "kept Struct(&T{}).Method(M) mocker: Apply, Reset, then Apply(no receiver)", func(b *mocker.Builder) {
+			m := b.Struct(&T{}).Method("M")
+			m.Apply(func(t *T, a int, s string) int { return 9 })
+			b.Reset()
+			m.Apply(func(a int) int { return 0 })
+		}},
+		{"too-few-return-values", "kept Func(F1) mocker: Return(1), Cancel, then Apply(two parameters)", func(b *mocker.Builder) {
+			m := b.Func(F1)
+			m.Return(1)
+			m.Cancel()
+			m.Apply(func(a, c int) int { return 0 })
+		}},
 		{"callback-signature", "Func(F5).Apply: first parameter is a local type named P2, 8 instead of 16 bytes", func(b *mocker.Builder) {
 			b.Func(F5).Apply(shadowCallbacks()[0])
 		}},
